@@ -373,6 +373,17 @@ U("dfcc_loop_cfg_getopt_leaf_twin", harness="harness/dfcc.c", entry="h_dfcc_leaf
   label="bounded(quantifier-free twin of dfcc_loop_cfg_getopt_leaf: option arrays of at most 3 entries; SAT back end, yields counterexamples)",
   props=["C01", "C11", "C12", "C02"], cost=5)
 
+U("dfcc_loop_cfg_print_pff_indent", harness="harness/dfcc.c", entry="h_dfcc_printcfg", func="cfg_print_pff_indent", style="S1", defs={"quick": ["-DCFGV_DFCC_PRINTCFG"]}, cbmc=NOOOM, backend="z3",
+  remove=["cfg_opt_print_pff_indent"], carriers=["carriers/dfcc_print_carriers.c"],
+  dfcc={"enforce": ["cfg_print_pff_indent"], "loops": True}, expect_canary=False, no_slice=False, require_obligations=[r"loop_invariant_step", r"loop_decreases", r"postcondition"],
+  label="proof (function contract + loop contract enforced by goto-instrument --dfcc --apply-loop-contracts; option arrays of every length up to 1024; filter verdicts and option-printer results arbitrary per entry, supplied by monitor carriers; SMT back end z3)",
+  props=["C19", "C16", "C02"], cost=30)
+U("dfcc_loop_cfg_print_pff_indent_twin", harness="harness/dfcc.c", entry="h_dfcc_printcfg", func="cfg_print_pff_indent", style="S1", defs={"quick": ["-DCFGV_DFCC_PRINTCFG", "-DCFGV_TWIN"]}, cbmc=NOOOM,
+  remove=["cfg_opt_print_pff_indent"], carriers=["carriers/dfcc_print_carriers.c"],
+  dfcc={"enforce": ["cfg_print_pff_indent"], "loops": True}, expect_canary=False, no_slice=False, require_obligations=[r"loop_invariant_step", r"loop_decreases", r"postcondition"],
+  label="bounded(quantifier-free twin of dfcc_loop_cfg_print_pff_indent: option arrays of at most 3 entries; SAT back end, yields counterexamples)",
+  props=["C19", "C16", "C02"], cost=5)
+
 U("dfcc_modular_cfg_num", harness="harness/dfcc.c", entry="h_dfcc_num", func="cfg_num", style="S1", defs={"quick": []}, cbmc=NOOOM, backend="z3",
   dfcc={"enforce": ["cfg_num"], "replace": ["cfg_numopts"]}, expect_canary=False, no_slice=False, require_obligations=[r"postcondition", r"precondition"],
   label="proof (contract of cfg_num enforced with the call to cfg_numopts replaced by contract::cfg_numopts: caller checked against the callee's contract, not its body; option arrays up to 1024; z3)",
